@@ -182,6 +182,12 @@ func c06packets() [][]string {
 			ps = append(ps, []string{"pkt", "iq", hx(t), hx("urn:x"), hx("id-" + t), f, to})
 		}
 	}
+	// requests without an id (or with an unusual one): the error carries the request's id - here none - and nothing else
+	for _, t := range []string{"get", "set"} {
+		ps = append(ps, []string{"pkt", "iq", hx(t), hx("urn:x"), "-", hx("srv"), hx("me@x/r")})
+		ps = append(ps, []string{"pkt", "iq", hx(t), "~", "-", "-", "-"})
+		ps = append(ps, []string{"pkt", "iq", hx(t), hx("urn:x"), hx(" "), hx("srv"), hx("me@x/r")})
+	}
 	for _, o := range []string{"other:streamerror", "other:smr", "other:sma", "other:features", "other:handshake"} {
 		ps = append(ps, []string{"pkt", o, "-", "~", "-", "-", "-"})
 	}
